@@ -199,6 +199,10 @@ class Tables:
             return Variant(TL, tln.index("Optional"), "Optional", [absint.some(inner)])
         if kind == "Nil":
             return Variant(TL, tln.index("Optional"), "Optional", [absint.NONE])
+        if isinstance(kind, tuple) and kind[0] == "Cb":
+            return Variant(TL, tln.index("CallbackVariable"), "CallbackVariable", [self.tl_value(kind[1], tag + ".cb")])
+        if isinstance(kind, tuple) and kind[0] == "Alias":
+            return Variant(TL, tln.index("Alias"), "Alias", [Opaque(tag + ".alias-name"), self.tl_value(kind[1], tag + ".alias")])
         if kind in ntn:
             vi = ntn.index(kind)
             n = len(nt["variants"][vi]["fields"])
